@@ -61,7 +61,15 @@ def _run_chunk(prop, name, preamble, unfold, goals, timeout, max_fail=6):
         rc, out, dt = C.sh(["timeout", str(timeout), "coqc"] + C.COQFLAGS + [str(p)], timeout=timeout + 30)
         if rc == 0:
             return failed, None
-        m = re.search(r'line (\d+), characters', out)
+        # the location that belongs to the Error (warnings, e.g. Coquelicot's ambiguous-paths
+        # notice, also print a `File ..., line N` header and must be skipped)
+        errs = re.findall(r'File "[^"]*", line (\d+), characters [^\n]*\n(?:Error|[^\n]*\nError)', out)
+        m = re.search(r'line (\d+), characters', out) if not errs else None
+        if errs:
+            class _M:      # minimal match-like object
+                def __init__(self, v): self.v = v
+                def group(self, i): return self.v
+            m = _M(errs[-1])
         if not m:
             return failed, out[-1500:]
         line = int(m.group(1))
